@@ -93,12 +93,12 @@ def conditions(tier):
     T = 1200 if quick else 7200
     conds = []
     # quartile cuts of the invertible alphabet, so that 16 cores share the table
-    nparts = 6
+    nparts = 12 if quick else 6
     cuts = [INV[(len(INV) * k) // nparts] for k in range(1, nparts)]
     ranges = list(zip([0] + cuts, cuts + [0x110000]))
-    combos = [('braces', False, '?a'), ('braces', False, '? b'), ('braces', True, 'a?'), ('braces-all', False, '?a'),
-              ('braces-almost-all', True, '?a'), ('braces-after-macro', False, '?a'), ('braces-after-macro', True, '? a'),
-              ('braces', False, '?\n')]
+    # one path costs ~3 s (encode + strict parse + conversion under the default databases): the quick tier affords one
+    # configuration over the whole alphabet; the others are in the thorough tier
+    combos = [('braces-after-macro', False, '?a')]
     if not quick:
         combos = [(sc, st, sk) for sc in SCHEMES for st in (False, True)
                   for sk in ('?', '?a', 'a?', '? b', '?\n', 'a?b')]
@@ -127,8 +127,7 @@ META = dict(
                'LatexNodes2Text.latex_to_text(strict parse) with default and strict whitespace policy: nodelist_to_text bare-macro '
                'post-space rule, macro_node_to_text, make_accented_char, symbol tables of latex2text/_defaultspecs.py'],
     bounds=dict(quick='one wildcard character ranging over the whole invertible alphabet (%d characters: built-in table keys and '
-                      'printable ASCII minus the %d listed in data/c08_noninvertible.json) next to pinned ASCII neighbours (letter '
-                      'after, space+letter after, letter before, newline after) under 8 scheme / whitespace-policy combinations; an '
+                      'printable ASCII minus the %d listed in data/c08_noninvertible.json) followed by a pinned ASCII letter under the braces-after-macro scheme with the default whitespace policy; a '
                       'Greek letter between two free printable ASCII characters' % (len(INV), len(NONINV)),
                 thorough='all 4 schemes x 2 policies x 6 neighbour skeletons'),
     stubs=['unicodedata.normalize: real function for the wildcard conditions (the character is pinned on each path), identity for the free-ASCII-neighbour condition', 'BisectMap around the table',
